@@ -221,17 +221,6 @@ def contents(layout: Layout, mode: str, assigned: dict[str, str] | None = None) 
     return out
 
 
-def expected_deliberate(rel_from_case: str, i: int, text: str) -> list[str]:
-    """The two deliberate diagnostics of file i (path given relative to the case directory)."""
-    n = text.count("\n")
-    return [f'{rel_from_case}:{n - 1}: error: Name "undefined_{i}" is not defined  [name-defined]',
-            f'{rel_from_case}:{n}: error: Incompatible types in assignment (expression has type "str", variable has type "int")  [assignment]']
-
-
-def describe(layout: Layout) -> dict[str, Any]:
-    return {"files": list(layout), "features": features(layout), "nontrivial": nontrivial(layout)}
-
-
 def iter_core_sample(layouts: list[Layout], rng: random.Random, n: int) -> Iterator[Layout]:
     """n layouts from the core list, biased to the larger (3-file) ones and to non-trivial ones."""
     nt = [x for x in layouts if nontrivial(x)]
